@@ -925,7 +925,9 @@ func (node *Node) check(ctx context.Context) error {
 				node.state.SetWasInSync()
 			}
 
-			if !node.state.NotifiedSync() {
+			// Blocks can have been announced since the block processor declared sync. Wait until
+			// they have been processed before telling the handlers that we are in sync.
+			if !node.state.NotifiedSync() && node.state.BlockRequestsEmpty() {
 				// TODO Add method to wait for mempool to sync
 				for _, handler := range node.handlers {
 					handler.HandleInSync(ctx)
